@@ -6,6 +6,7 @@
 mod c03;
 mod c08;
 mod c09;
+mod c12;
 mod c13;
 mod c18;
 mod drive;
@@ -30,6 +31,9 @@ mod verdict;
 
 use verdict::{Ctx, Tier};
 
+#[global_allocator]
+static GLOBAL: c12::Counting = c12::Counting;
+
 fn main() {
     // anyhow captures a backtrace per error when RUST_BACKTRACE is set; that takes a
     // global lock and serialises the sweeps. The monitors never look at backtraces.
@@ -38,6 +42,10 @@ fn main() {
     if args.len() < 3 {
         eprintln!("usage: pvh <Cxx> <quick|thorough> [--replay <file>]");
         std::process::exit(2);
+    }
+    if args[1] == "c12-worker" {
+        drive::install_panic_hook();
+        std::process::exit(c12::worker(&args[2..]));
     }
     if args[1] == "child-build" {
         drive::install_panic_hook();
@@ -98,6 +106,7 @@ fn main() {
             "C08" => c08::replay(&mut ctx, &case),
             "C09" => c09::replay(&mut ctx, &case),
             "C10" | "C11" => resolve_props::replay(&mut ctx, prop, &case),
+            "C12" => c12::replay(&mut ctx, &case),
             "C13" => c13::replay(&mut ctx, &case),
             "C14" | "C16" | "C17" => static_props::replay(&mut ctx, prop, &case),
             "C18" => c18::replay(&mut ctx, &case),
@@ -123,6 +132,7 @@ fn main() {
         "C09" => c09::run(&mut ctx),
         "C10" => resolve_props::run_c10(&mut ctx),
         "C11" => resolve_props::run_c11(&mut ctx),
+        "C12" => c12::run(&mut ctx),
         "C13" => c13::run(&mut ctx),
         "C14" => static_props::run_c14(&mut ctx),
         "C16" => static_props::run_c16(&mut ctx),
